@@ -172,9 +172,22 @@ func cmdScenario() int {
 		// (its consequences would only be noise). A violation of another property's monitor is
 		// recorded as a cross-property observation and the search goes on behind it: what this
 		// property demands must hold there too (C20 owns every safety monitor, so it stops at all).
+		// Exception: a violation that needed a stale cache (F3/F11: tasks duplicated or wrongly
+		// declared lost) leaves a Job whose bookkeeping is corrupt; everything behind it is noise
+		// for every property and multiplies the space, so the search stops there as well.
 		decides := func(v mc.Violation) bool { return true }
 		if u.Property != "C20" && os.Getenv("VERIF_STOP_ALL") == "" {
-			decides = func(v mc.Violation) bool { return v.Property == u.Property }
+			decides = func(v mc.Violation) bool {
+				if v.Property == u.Property {
+					return true
+				}
+				for _, f := range v.Features {
+					if strings.HasPrefix(f, "stale:") {
+						return true
+					}
+				}
+				return false
+			}
 		}
 		res = mc.Explore(s.ID, worlds.Factory(s), mc.Options{
 			Decides:   decides,
